@@ -9,6 +9,7 @@ struct WDrv DRV;
 uint32_t    W_NOW;
 void (*w_lock_hook)(int lock);
 void (*w_send_hook)(const WFrame *f);
+void (*w_cb_hook)(uint8_t kind, uint32_t a, uint32_t b, uint32_t c);
 void (*w_prehash)(int phase);
 
 /* ------------------------------------------------------------------ regions */
@@ -104,6 +105,7 @@ void w_reset(uint32_t freq)
     W_NOW = 0;
     w_lock_hook = 0;
     w_send_hook = 0;
+    w_cb_hook = 0;
     w_prehash = 0;
     W_REG(DRV);
     W_REG_NOHASH(W_NOW);
@@ -113,6 +115,7 @@ void w_cb(uint8_t kind, uint32_t a, uint32_t b, uint32_t c)
 {
     if (OBS.ncb < W_MAX_CB) { WCb *x = &OBS.cb[OBS.ncb++]; x->kind = kind; x->a = a; x->b = b; x->c = c; }
     else OBS.cb_lost++;
+    if (w_cb_hook) w_cb_hook(kind, a, b, c);
 }
 
 /* ------------------------------------------------------------------ CAN driver */
